@@ -7,6 +7,9 @@
 (*   chan / select  n producers push (p, 0..m-1), n consumers receive m    *)
 (*                  items each: every item exactly once, the items of one  *)
 (*                  producer in the order pushed at every consumer         *)
+(*   selectfn       one function receiving with select from the channel it *)
+(*                  is given, used for two channels in turn: what it       *)
+(*                  returns was pushed on that channel                     *)
 (*   mutex          n routines x m increments inside with-mutex-lock left  *)
 (*                  normally, by an error and by return-from: the counter  *)
 (*                  is n*m and the mutex is free                           *)
@@ -35,8 +38,16 @@ ChanOK(e) == /\ Len(e.got) = e.n
              /\ \A c \in 1..e.n : Len(e.got[c]) = e.m
              /\ {e.got[x[1]][x[2]] : x \in All(e)} = {<<p, i>> : p \in 1..e.n, i \in 0..(e.m - 1)}      \* with the counts: exactly once
              /\ \A c \in 1..e.n : \A i, j \in 1..Len(e.got[c]) : (i < j /\ e.got[c][i][1] = e.got[c][j][1]) => e.got[c][i][2] < e.got[c][j][2]
+\* selectfn: what the function received from the first channel is what the producers 1..n pushed on it, in their order; the
+\* second channel likewise with the producers n+1..2n
+SelectFnOK(e) == /\ Len(e.got) = 2
+                 /\ \A c \in 1..2 :
+                      /\ Len(e.got[c]) = e.n * e.m
+                      /\ {e.got[c][i] : i \in 1..Len(e.got[c])} = {<<p, i>> : p \in ((c - 1) * e.n + 1)..(c * e.n), i \in 0..(e.m - 1)}
+                      /\ \A i, j \in 1..Len(e.got[c]) : (i < j /\ e.got[c][i][1] = e.got[c][j][1]) => e.got[c][i][2] < e.got[c][j][2]
 Judge(e) == IF e.st # "ok" THEN "status"
             ELSE CASE e.kind \in {"chan", "select"} -> IF ChanOK(e) THEN "" ELSE "items"
+                   [] e.kind = "selectfn" -> IF SelectFnOK(e) THEN "" ELSE "items"
                    [] e.kind = "mutex" -> IF e.x = e.n * e.m THEN "" ELSE "counter"
                    [] e.kind = "syncmethod" -> IF e.x = e.n * e.m THEN "" ELSE "counter"
                    [] e.kind = "mutexnest" -> IF e.x = 1 + 2 * e.n * e.m THEN "" ELSE "counter"
